@@ -22,6 +22,7 @@ package uu
 //@ lemma{C15} encLenBound(n int): imp(n >= 0, 0 <= encLen(n) && encLen(n) <= 63*(1 + n/45))
 //@ lemma{C15} encLenFullLines(k int): imp(k >= 0, encLen(45*k) == 62*k)
 //@ lemma{C15} encLenMonotone(a int, b int): imp(0 <= a && a <= b, encLen(a) <= encLen(b))
+//@ lemma{C15} linePos(k int, o int): imp(k >= 0 && 0 <= o && o < 62, (62*k + o)%62 == o && (62*k + o)/62 == k)
 
 //@ func MaxEncodedLen(b) (n)
 //@   props C15
@@ -33,13 +34,31 @@ package uu
 //@   ensures formula: n == 1 + (len(b)*16)/3
 //@   ensures at_least_the_input_length: n >= len(b)
 
+// AppendDecode: total (no panic: zero-annotation bounds obligations), pure
+// (src and the old contents of dst are never written), and a failure returns
+// no buffer and an error.
 //@ func AppendDecode(dst, src) (res, err)
 //@   props C15
+//@   requires spare_capacity_of_dst_does_not_overlap_src: disjointSpare(dst, src)
+//@   ensures source: forall(i, 0 <= i && i < len(src), src[i] == old(src[i]))
+//@   ensures prefix: imp(err == nil, len(res) >= len(dst) && forall(q, 0 <= q && q < len(dst), res[q] == old(dst[q])))
+//@   ensures failure_returns_no_buffer: imp(err != nil, len(res) == 0)
 //@   loop 1 counter lineN
+//@     invariant apart: disjointSpare(dst, src)
+//@     invariant grows: len(dst) >= len(old(dst))
+//@     invariant source: forall(i, 0 <= i && i < len(src), src[i] == old(src[i]))
+//@     invariant prefix: forall(q, 0 <= q && q < len(old(dst)), dst[q] == old(dst[q]))
 //@   loop 1.1 counter c
 //@     invariant off: offset == 1 + 4*c
 //@     invariant rem: nDecRem <= nDec && nDecRem >= 0
+//@     invariant apart: disjointSpare(dst, src)
+//@     invariant grows: len(dst) >= len(old(dst))
+//@     invariant source: forall(i, 0 <= i && i < len(src), src[i] == old(src[i]))
+//@     invariant prefix: forall(q, 0 <= q && q < len(old(dst)), dst[q] == old(dst[q]))
 //@   loop 1.1.1
+//@     invariant own_copy: !sameArray(chunk, src) && !sameArray(chunk, dst) && fresh(chunk)
+//@     invariant source: forall(i, 0 <= i && i < len(src), src[i] == old(src[i]))
+//@     invariant prefix: forall(q, 0 <= q && q < len(old(dst)), dst[q] == old(dst[q]))
 //@   loop 1.1.2
 
 // AppendEncode: the result is the old dst followed by the Perl-compatible
@@ -49,20 +68,31 @@ package uu
 //@   requires sizes: len(src) <= 72057594037927936 && len(dst) <= 72057594037927936
 //@   requires spare_capacity_of_dst_does_not_overlap_src: disjointSpare(dst, src)
 //@   ensures length: len(res) == len(dst) + encLen(len(src))
-//@   ensures old_contents_of_dst_kept: forall(q, 0 <= q && q < len(dst), res[q] == old(dst[q]))
-//@   ensures encoding_is_perls: forall(p, 0 <= p && p < encLen(len(src)), res[len(dst)+p] == encByte(src, p))
-//@   ensures src_not_modified: forall(i, 0 <= i && i < len(src), src[i] == old(src[i]))
+//@   ensures prefix: forall(q, 0 <= q && q < len(dst), res[q] == old(dst[q]))
+//@   ensures encoded: imp(!sameArray(dst, src), forall(p, 0 <= p && p < encLen(len(src)), res[len(dst)+p] == encByte(src, p)))
+//@   ensures source: forall(i, 0 <= i && i < len(src), src[i] == old(src[i]))
+//@   before "dst = append(dst, byte(uuOffset+len(line)))": assert(byte(uuOffset+len(line)) == encByte(src, 62*k), "length_char_is_perls")
+//@   before "dst = append(dst, enc[0], enc[1], enc[2], enc[3])": assert(enc[0] == encByte(src, 62*k + 1 + 4*j), "char0_is_perls"); assert(enc[1] == encByte(src, 62*k + 2 + 4*j), "char1_is_perls"); assert(enc[2] == encByte(src, 62*k + 3 + 4*j), "char2_is_perls"); assert(enc[3] == encByte(src, 62*k + 4 + 4*j), "char3_is_perls")
+//@   after "dst = append(dst, enc[0], enc[1], enc[2], enc[3])": assert(forall(p, 0 <= p && p < 62*k + 1 + 4*j, dst[len(old(dst))+p] == prev(dst[len(old(dst))+p])), "append_keeps_earlier_output"); assert(imp(!sameArray(old(dst), src), mem(src) == prev(mem(src))), "append_leaves_srcs_array_alone")
+//@   before "dst = append(dst, '\\n')": assert(encByte(src, 62*k + 1 + 4*j) == '\n', "newline_is_perls")
 //@   loop 1 counter k
 //@     invariant consumed: 0 <= k && (k == 0 || 45*(k-1) < len(src))
 //@     invariant length: len(dst) == len(old(dst)) + encLen(min(45*k, len(src)))
 //@     invariant apart: disjointSpare(dst, src)
 //@     invariant prefix: forall(q, 0 <= q && q < len(old(dst)), dst[q] == old(dst[q]))
 //@     invariant source: forall(i, 0 <= i && i < len(src), src[i] == old(src[i]))
-//@     invariant encoded: forall(p, 0 <= p && p < encLen(min(45*k, len(src))), dst[len(old(dst))+p] == encByte(src, p))
+//@     invariant encoded: imp(!sameArray(old(dst), src), !sameArray(dst, src) && forall(p, 0 <= p && p < encLen(min(45*k, len(src))), dst[len(old(dst))+p] == encByte(src, p)))
+//@     apply linePos(k, 0)
+//@     apply encLenFullLines(k)
 //@   loop 1.1 counter j
 //@     invariant progress: 0 <= j && 3*j <= len(line) + 2
 //@     invariant length: len(dst) == len(old(dst)) + 62*k + 1 + 4*j
 //@     invariant apart: disjointSpare(dst, src)
 //@     invariant prefix: forall(q, 0 <= q && q < len(old(dst)), dst[q] == old(dst[q]))
 //@     invariant source: forall(i, 0 <= i && i < len(src), src[i] == old(src[i]))
-//@     invariant encoded: forall(p, 0 <= p && p < 62*k + 1 + 4*j, dst[len(old(dst))+p] == encByte(src, p))
+//@     invariant encoded: imp(!sameArray(old(dst), src), !sameArray(dst, src) && forall(p, 0 <= p && p < 62*k + 1 + 4*j, dst[len(old(dst))+p] == encByte(src, p)))
+//@     hint short_line: len(line) <= 45 && j <= 15
+//@     apply linePos(k, 1 + 4*j)
+//@     apply linePos(k, 2 + 4*j)
+//@     apply linePos(k, 3 + 4*j)
+//@     apply linePos(k, 4 + 4*j)
